@@ -9,16 +9,15 @@ open Asts Asts.L1c
 /-- normal and settled (any policy) -/
 structure NSC (h : Hashing) (j : SyncIn) : Prop where
   norm : NormC h j
-  idpos : IdPos j.pods
+  ids : IdOk j.pods
   settled : ∀ c ∈ j.pods, c.pod.terminating = false ∧ (c.pod.fs = true ∨ c.pod.runningAndReady = true)
   room : (j.pods.filter (fun c => !(desired (replicasOf j.view) j.view.slots).contains c.pod.ord)).length +
            (replicasOf j.view).toNat ≤ freshId
 
 theorem NSC.ctx {h : Hashing} {j : SyncIn} (hs : NSC h j) : PodsCtx j.setName j.pods := by
-  refine ⟨?_, hs.norm.ords, hs.idpos, hs.norm.small, hs.settled⟩
+  refine ⟨?_, hs.norm.ords, hs.ids, hs.norm.small, hs.settled⟩
   intro c hc
-  obtain ⟨a1, a2, a3, a4, a5, _, a7, a8⟩ := hs.norm.pods c hc
-  exact ⟨a1, a2, a3, a4, a5, a7, a8⟩
+  exact hs.norm.pods c hc
 
 /-- the next settled world -/
 def nextW (h : Hashing) (j : SyncIn) : SyncIn := settle (applySync j [] (syncF h j []))
@@ -30,11 +29,6 @@ def EOf (j : SyncIn) : List Int := (maxReplicaAndSlots (replicasOf j.view) j.vie
 
 theorem bOf_nonneg {h : Hashing} {j : SyncIn} (hn : NormC h j) : 0 ≤ bOf j := (maxReplica_facts _ _ hn.spec.r0).1
 theorem EOf_nonneg {h : Hashing} {j : SyncIn} (hn : NormC h j) : ∀ e ∈ EOf j, 0 ≤ e := (maxReplica_facts _ _ hn.spec.r0).2
-theorem bOf_le {h : Hashing} {j : SyncIn} (hn : NormC h j) : bOf j ≤ maxInt32 := by
-  have := maxReplica_le (replicasOf j.view) j.view.slots
-  have h2 := hn.smallB
-  unfold bOf; omega
-
 theorem mem_desired_iff {h : Hashing} {j : SyncIn} (hn : NormC h j) (o : Int) :
     o ∈ desired (replicasOf j.view) j.view.slots ↔ inRange (bOf j) (EOf j) o = true := by
   rw [desired_eq_idxOf _ _ hn.spec.r0]; exact mem_idxOf
@@ -135,28 +129,27 @@ theorem nextW_cc (hs : NSC h j) (hp : Pol hs.norm) : (nextW h j).collisionCount.
 /-- what is known of a pod of the raw next list, in the shape `NormC` wants it -/
 theorem rawNext_pod (hs : NSC h j) (hp : Pol hs.norm) {y : CPod} (hy : y ∈ rawNext hs.norm) :
     y.owner = .self ∧ y.member = true ∧ y.selMatch = true ∧ y.name = canonicalName j.setName y.pod.ord ∧
-    0 ≤ y.pod.ord ∧ y.pod.ord < maxInt32 ∧ y.pod.stOk = true ∧ y.pod.created = true ∧
+    0 ≤ y.pod.ord ∧ y.pod.stOk = true ∧ y.pod.created = true ∧
     (inRange (bOf j) (EOf j) y.pod.ord = true ∨ ∃ c ∈ j.pods, c.pod.ord = y.pod.ord) ∧
     (y.pod.fs = true → ∃ c ∈ j.pods, c.pod.ord = y.pod.ord ∧ c.pod.fs = true) := by
   have hn := hs.norm
   obtain ⟨A, hA, hsub⟩ := hp.sub
   have hy' : y ∈ nextRawG j.setName j.pods A := hsub.subset hy
   rcases nextRawG_mem hs.ctx hA hy' with ⟨c, hcm, _, hsame, hown, _, _⟩ | ⟨o, rev, hcr, rfl⟩
-  · obtain ⟨a1, a2, a3, a4, a5, a6, a7, a8⟩ := hn.pods c hcm
+  · obtain ⟨a1, a2, a3, a4, a5, a7, a8⟩ := hn.pods c hcm
     refine ⟨hown, by rw [hsame.mem]; exact a2, by rw [hsame.sel]; exact a3, by rw [hsame.name, hsame.ord]; exact a4,
-      by rw [hsame.ord]; exact a5, by rw [hsame.ord]; exact a6, by rw [hsame.stOk]; exact a7, ?_,
+      by rw [hsame.ord]; exact a5, by rw [hsame.stOk]; exact a7, ?_,
       Or.inr ⟨c, hcm, hsame.ord.symm⟩, ?_⟩
     · unfold Pod.created at a8 ⊢; rw [hsame.phase]; exact a8
     · intro hfs
       refine ⟨c, hcm, hsame.ord.symm, ?_⟩
       unfold Pod.fs Pod.failed Pod.succeeded at hfs ⊢; rw [← hsame.phase]; exact hfs
   · rw [settleOne_mkPod]
-    have hb := bOf_le hn
     have hr0 := (hA.cre o rev hcr).1
     have hr := hr0
     unfold inRange at hr
     simp only [Bool.and_eq_true, decide_eq_true_eq] at hr
-    refine ⟨rfl, rfl, rfl, rfl, hr.1.1, by simp only [mkPod]; omega, rfl, by simp [Pod.created], Or.inl hr0, ?_⟩
+    refine ⟨rfl, rfl, rfl, rfl, hr.1.1, rfl, by simp [Pod.created], Or.inl hr0, ?_⟩
     intro hfs
     simp [Pod.fs, Pod.failed, Pod.succeeded] at hfs
 
@@ -220,12 +213,17 @@ theorem nextW_ns (hs : NSC h j) (hp : Pol hs.norm) : NSC h (nextW h j) := by
     rw [(hkp.filter (fun c => !(desired (replicasOf j.view) j.view.slots).contains c.pod.ord) (fun _ => rfl)).length]
     obtain ⟨A, hA, hsub⟩ := hp.sub
     exact le_trans (hsub.filter _).length_le (step_condemnedG hs.ctx hA _ (mem_desired_iff hn)).1
-  refine ⟨⟨?_, ?_, ?_, ?_, ?_, ?_, ?_, ?_, ?_⟩, settle_idPos _, settle_settled _, ?_⟩
+  have hsmall : (nextW h j).pods.length ≤ freshId := by
+    have h1 := length_split_le (D := desired (replicasOf j.view) j.view.slots) hnd'
+    rw [(desired_isDesired _ _).len] at h1
+    have := hs.room
+    omega
+  refine ⟨⟨?_, ?_, ?_, ?_, ?_, hsmall, ?_, ?_⟩, idOk_of_idPos (settle_idPos _) hsmall, settle_settled _, ?_⟩
   · rw [nextW_eq hs hp]
     exact ⟨hn.spec.paused, hn.spec.sel, hn.spec.del, hn.spec.rep, hn.spec.r0, hn.spec.strat, hn.spec.lim⟩
   · intro x hx
     obtain ⟨y, hy, hk⟩ := hpods x hx
-    obtain ⟨a1, a2, a3, a4, a5, a6, a7, a8, -⟩ := rawNext_pod hs hp hy
+    obtain ⟨a1, a2, a3, a4, a5, a7, a8, -⟩ := rawNext_pod hs hp hy
     have e1 : y.owner = x.owner := key_transfer (·.owner) (fun _ => rfl) hk
     have e2 : y.member = x.member := key_transfer (·.member) (fun _ => rfl) hk
     have e3 : y.selMatch = x.selMatch := key_transfer (·.selMatch) (fun _ => rfl) hk
@@ -234,7 +232,7 @@ theorem nextW_ns (hs : NSC h j) (hp : Pol hs.norm) : NSC h (nextW h j) := by
     have e7 : y.pod.stOk = x.pod.stOk := key_transfer (·.pod.stOk) (fun _ => rfl) hk
     have e8 : y.pod.created = x.pod.created := key_transfer (·.pod.created) (fun _ => rfl) hk
     rw [nextW_setName hs hp, ← e1, ← e2, ← e3, ← e4, ← e5, ← e7, ← e8]
-    exact ⟨a1, a2, a3, a4, a5, a6, a7, a8⟩
+    exact ⟨a1, a2, a3, a4, a5, a7, a8⟩
   · exact hnd'
   · refine ⟨hn.updRev, nextW_last hs hp, ?_⟩
     have heq := hn.updRev_spec.2
@@ -250,12 +248,7 @@ theorem nextW_ns (hs : NSC h j) (hp : Pol hs.norm) : NSC h (nextW h j) := by
     rw [Bool.eq_false_iff, ne_eq, List.any_eq_true] at h0 ⊢
     rintro ⟨x, hx, hxo⟩
     exact h0 ⟨x, List.mem_of_mem_filter hx, hxo⟩
-  · have h1 := length_split_le (D := desired (replicasOf j.view) j.view.slots) hnd'
-    rw [(desired_isDesired _ _).len] at h1
-    have := hs.room
-    omega
   · rw [hrep]; exact hn.smallR
-  · rw [hrep, hslots]; exact hn.smallB
   · rfl
   · rw [hrep, hslots]
     have := hs.room
